@@ -23,8 +23,11 @@ thread_local! {
     pub static MARKS: RefCell<Marks> = RefCell::new(Marks::default());
 }
 
-pub const K_BOUNDARY: u8 = 1; // begin_read, begin_write, commit, abort, savepoint create/drop, Database drop
 pub const K_OTHER: u8 = 0;
+pub const K_BOUNDARY: u8 = 1; // abort, savepoint create/drop, Database drop, reader drop, compact
+pub const K_COMMIT: u8 = 2;
+pub const K_BEGIN_READ: u8 = 3;
+pub const K_BEGIN_WRITE: u8 = 4;
 
 /// Called by a client task right before each redb API call.
 pub fn api(kind: u8) {
@@ -47,13 +50,18 @@ pub fn reset_marks() {
 #[derive(Clone, Debug, serde::Serialize, serde::Deserialize, PartialEq)]
 pub struct Stall {
     pub victim: usize,
-    /// freeze at the n-th (boundary or any) call of the victim
+    /// freeze at the n-th call of the victim among those matching `kind`
     pub nth: u32,
-    pub boundary_only: bool,
+    /// None = any call, Some(K_BOUNDARY) = any transaction-boundary call, Some(k >= 2) = exactly k
+    pub kind: Option<u8>,
     /// scheduling point inside that call
     pub point: u32,
     /// release after the others have started this many further API calls
     pub release_after: u64,
+    /// another task that is not scheduled at all until this stall has fired (or nothing else can
+    /// run): it then performs its calls while the victim is frozen mid-call
+    #[serde(default)]
+    pub hold: Option<usize>,
 }
 
 #[derive(Clone, Debug, serde::Serialize, serde::Deserialize, PartialEq)]
@@ -157,17 +165,28 @@ impl Scheduler for Sched {
                     continue;
                 }
                 let (ci, kind) = calls.get(c).copied().unwrap_or((0, 0));
+                let matches = match st.kind {
+                    None => true,
+                    Some(K_BOUNDARY) => kind >= K_BOUNDARY,
+                    Some(k) => kind == k,
+                };
                 if ci != v.last_call {
                     v.last_call = ci;
                     v.points = 0;
-                    if !st.boundary_only || kind == K_BOUNDARY {
+                    if matches {
                         v.matched += 1;
                     }
                     v.calls_seen += 1;
                 } else {
                     v.points += 1;
                 }
-                let in_target = v.matched == st.nth && (!st.boundary_only || kind == K_BOUNDARY) && ci != 0;
+                if v.matched > st.nth {
+                    // the victim is past the targeted call: this stall can no longer fire, so it
+                    // must not keep another task held back
+                    v.fired = true;
+                    continue;
+                }
+                let in_target = v.matched == st.nth && matches && ci != 0;
                 if in_target && v.points == st.point {
                     v.fired = true;
                     self.frozen = Some((c, total + st.release_after));
@@ -191,6 +210,10 @@ impl Scheduler for Sched {
                 return Some(TaskId::from(pick));
             }
         }
+        // tasks held back until a stall fires
+        let held: Vec<usize> = self.stalls.iter().zip(self.vs.iter()).filter(|(_, v)| !v.fired).filter_map(|(s, _)| s.hold).collect();
+        let free: Vec<usize> = ids.iter().copied().filter(|t| !held.contains(t)).collect();
+        let ids = if free.is_empty() { ids } else { free };
         let pick = match cur {
             Some(c) if ids.contains(&c) && !is_yielding && self.rng.chance(9, 10) => c,
             _ => ids[self.rng.usize(ids.len())],
@@ -204,23 +227,63 @@ impl Scheduler for Sched {
     }
 }
 
-pub fn draw_sched(rng: &mut Rng, ntasks: usize, thorough: bool) -> SchedPlan {
+/// What the scenario knows about each client task (task i+1 in shuttle's numbering): how many
+/// calls of each kind it will make, so that stall targets fall inside the task's real call list.
+#[derive(Clone, Debug, Default)]
+pub struct TaskInfo {
+    pub calls: u32,
+    pub boundary: u32,
+    pub commits: u32,
+    pub begin_reads: u32,
+    pub begin_writes: u32,
+}
+
+pub fn draw_sched(rng: &mut Rng, tasks: &[TaskInfo], thorough: bool) -> SchedPlan {
+    let ntasks = tasks.len().max(1);
     let seed = rng.next();
     match rng.below(100) {
-        0..=11 => SchedPlan::Random { seed },
-        12..=23 => SchedPlan::Pct { seed, depth: rng.range(1, 4) as usize },
+        0..=9 => SchedPlan::Random { seed },
+        10..=19 => SchedPlan::Pct { seed, depth: rng.range(1, 4) as usize },
         _ => {
             let n = if thorough && rng.chance(1, 3) { 2 } else { 1 };
-            let stalls = (0..n)
-                .map(|_| Stall {
-                    // task 0 is the main task (setup / audit); clients are 1..=ntasks
-                    victim: 1 + rng.usize(ntasks),
-                    nth: rng.range(1, 8) as u32,
-                    boundary_only: rng.chance(1, 2),
-                    point: rng.below(6) as u32,
-                    release_after: *rng.pick(&[5u64, 30, 70, 1000]),
-                })
-                .collect();
+            let mut stalls = vec![];
+            for _ in 0..n {
+                let vi = rng.usize(ntasks);
+                let info = tasks.get(vi).cloned().unwrap_or_default();
+                // what to freeze inside: the calls this task really makes, biased to the boundaries
+                let mut options: Vec<(Option<u8>, u32)> = vec![(None, info.calls.max(1)), (Some(K_BOUNDARY), info.boundary.max(1))];
+                if info.commits > 0 {
+                    options.push((Some(K_COMMIT), info.commits));
+                    options.push((Some(K_COMMIT), info.commits));
+                }
+                if info.begin_reads > 0 {
+                    options.push((Some(K_BEGIN_READ), info.begin_reads));
+                    options.push((Some(K_BEGIN_READ), info.begin_reads));
+                }
+                if info.begin_writes > 0 {
+                    options.push((Some(K_BEGIN_WRITE), info.begin_writes));
+                }
+                let (kind, count) = options[rng.usize(options.len())];
+                // early points hold the victim right after it entered the call; deep points reach
+                // windows in the middle or at the end of a long call (a commit has one to a few
+                // thousand scheduling points; its final flush alone visits every cache stripe)
+                let point = match (kind, rng.below(10)) {
+                    (Some(K_COMMIT), 0..=4) => rng.below(2000) as u32,
+                    (Some(K_COMMIT), 5..=6) => rng.below(200) as u32,
+                    (_, 0..=4) => rng.below(8) as u32,
+                    (_, 5..=7) => rng.below(80) as u32,
+                    _ => rng.below(1200) as u32,
+                };
+                let mut st = Stall { victim: 1 + vi, nth: 1 + rng.below(count as u64) as u32, kind, point, release_after: *rng.pick(&[5u64, 30, 70, 1000]), hold: None };
+                if ntasks > 1 && rng.chance(1, 2) {
+                    let mut h = 1 + rng.usize(ntasks);
+                    if h == st.victim {
+                        h = 1 + (h % ntasks);
+                    }
+                    st.hold = Some(h);
+                }
+                stalls.push(st);
+            }
             SchedPlan::Stall { seed, stalls }
         }
     }
